@@ -1,7 +1,175 @@
-(* C02 -- placeholder; theorems are added in proofs/ManagerProofs.v *)
-Require Import Coq.Lists.List Coq.NArith.NArith.
-From Mustache Require Import Res Manager.
+(* C02 -- component values follow their entity through every structural change.
+
+   Models: Manager.v (EntityManager + Archetype with value columns, tied to the C++ by the correspondence runs of
+   ./check C02), MgrSpec.v (the abstract world: a map from live issue numbers to components with values), Refine.v
+   (abstraction `abs`, `worlds_match`, `refines_on`).  Proofs: proofs/ManagerBasics.v (cells, masks, component index),
+   proofs/ManagerMoves.v (function level), proofs/SkelMove.v + proofs/ManagerProj.v (the structural part of a Manager
+   state is a Skeleton state; the C01 invariant G carries over), proofs/ManagerInv.v (invariant MInv with the VALUE
+   clause, one lemma per operation), proofs/ManagerMain.v (induction over scripts), proofs/ManagerWorlds.v (from the
+   pointwise statement to worlds_match).
+
+   What is proved, for ALL scripts over the unlocked alphabet (ManagerMain.alpha_b):
+       create (any mask, no shared ids, either entry point), destroyNow, assign (typed or untyped, default or value),
+       removeComponent (typed or untyped), write through getComponent<T>() ("set"), on handles alive or not,
+       issued or not, for ARBITRARY component descriptions cis subject to cis_ok (below):
+   if the script stays inside the documented contract (x_viol = 0), the model run does not end in Err and fewer than
+   16 777 000 handles were issued (version field does not wrap: as in C01), then what queries observe of the Manager is
+   the abstract world: Refine.refines_on = true (C02_unlocked_refines_on), pointwise per handle
+   (C02_unlocked_refinement), and through has / getComponent<const T> (C02_unlocked_observations).
+
+   Hypotheses that are genuinely needed (each one is violated by a concrete counterexample):
+     - cis_ok: no component type has after_assign AND a default value but NO create function.  For such a type
+       Archetype::insert (archetype.cpp:179-205 with archetype_operation_helper.cpp:38-50) puts the component in the
+       `insert` list because of after_assign, whose constructor does nothing without create, and therefore never copies
+       the default value -- while externalMove (assign) does.  C02_insert_skips_default_of_after_assign_types below
+       exhibits it on the model.  No type of the palette has this shape.
+     - alpha_b: an assignment carries a value only for types with ci_hasval (the driver cannot write the value of
+       the empty type); component ids are below 128.
+     - mrun = Ok: an Err of the model is undefined behaviour of the code (e.g. a component id without description). *)
+Require Import Coq.Lists.List Coq.NArith.NArith Coq.ZArith.ZArith Coq.Arith.Arith Coq.Bool.Bool.
+From Mustache Require Import Res Manager MgrSpec Refine Palette.
+From Mustache.proofs Require Import ManagerBasics ManagerMoves ManagerProj ManagerInv ManagerMain ManagerWorlds.
 Import ListNotations.
-Example C02_placeholder : mitems 5%N = [0; 2].
-Proof. vm_compute. reflexivity. Qed.
-Print Assumptions C02_placeholder.
+
+(* ---- function level ------------------------------------------------------------------------------------------ *)
+(* acell a c slot: the cell of component c (by id) at a slot of archetype a (None if a has no such component) *)
+
+(* Archetype::externalMove: the entity sits in the last slot of the target archetype, is located there, carries the
+   value of every component both archetypes have, gets default values for the others (unless skipped), and the other
+   members of the target archetype keep their values *)
+Theorem C02_external_move_keeps_values : forall s ai h prev pidx skip s' a pa,
+  nth_error (archs s) ai = Some a -> nth_error (archs s) prev = Some pa ->
+  length (am_cols a) = length (mitems (am_mask a)) ->
+  am_size pa = length (am_ents pa) -> length (am_cols pa) = length (mitems (am_mask pa)) ->
+  external_move s ai h prev pidx skip = Ok s' ->
+  exists a2, nth_error (archs s') ai = Some a2 /\ am_mask a2 = am_mask a /\ am_ents a2 = am_ents a ++ [h] /\
+    nth_error (locs s') (N.to_nat (fst h)) = Some {| l_arch := Some ai; l_idx := length (am_ents a) |} /\
+    (forall c, c < MASK_BITS -> mhas (am_mask a) c = true -> mhas (am_mask pa) c = true ->
+       acell a2 c (length (am_ents a)) = acell pa c pidx) /\
+    (forall c, c < MASK_BITS -> mhas (am_mask a) c = true -> mhas (am_mask pa) c = false -> mhas skip c = false ->
+       cell_le (default_cell (cinfos s) c) (acell a2 c (length (am_ents a))) = true) /\
+    (forall c slot, c < MASK_BITS -> slot < length (am_ents a) -> acell a2 c slot = acell a c slot).
+Proof. exact external_move_keeps_values. Qed.
+Print Assumptions C02_external_move_keeps_values.
+
+(* Archetype::remove (swap-remove): every member of the archetype afterwards was a member before, at a slot other
+   than the removed one, with the same values; it kept its slot, or it was the last member and now sits in the freed
+   slot and its location says so *)
+Theorem C02_swap_remove_moves_values_with_entity : forall s ai idx h skip s' a,
+  nth_error (archs s) ai = Some a -> am_size a = length (am_ents a) -> length (am_cols a) = length (mitems (am_mask a)) ->
+  arch_remove s ai idx h skip = Ok s' ->
+  exists a', nth_error (archs s') ai = Some a' /\ am_mask a' = am_mask a /\ S (length (am_ents a')) = length (am_ents a) /\
+    (forall j, j <> ai -> nth_error (archs s') j = nth_error (archs s) j) /\
+    forall idx' h', nth_error (am_ents a') idx' = Some h' ->
+      exists old, old <> idx /\ nth_error (am_ents a) old = Some h' /\
+        (forall c, c < MASK_BITS -> acell a' c idx' = acell a c old) /\
+        (old = idx' \/ (idx' = idx /\ S old = length (am_ents a) /\
+                        nth_error (locs s') (N.to_nat (fst h')) = Some {| l_arch := Some ai; l_idx := idx |})).
+Proof. exact swap_remove_moves_values. Qed.
+Print Assumptions C02_swap_remove_moves_values_with_entity.
+
+(* Archetype::insert without skip mask: the new member gets the default value of every component *)
+Theorem C02_insert_gives_default_values : forall cis s ai h s' a,
+  cis_ok cis -> cinfos s = cis -> nth_error (archs s) ai = Some a -> length (am_cols a) = length (mitems (am_mask a)) ->
+  arch_insert s ai h 0%N = Ok s' ->
+  exists a3, nth_error (archs s') ai = Some a3 /\ am_mask a3 = am_mask a /\ am_ents a3 = am_ents a ++ [h] /\
+    nth_error (locs s') (N.to_nat (fst h)) = Some {| l_arch := Some ai; l_idx := length (am_ents a) |} /\
+    (forall c, c < MASK_BITS -> mhas (am_mask a) c = true ->
+       cell_le (default_cell cis c) (acell a3 c (length (am_ents a))) = true) /\
+    (forall c slot, c < MASK_BITS -> slot < length (am_ents a) -> acell a3 c slot = acell a c slot).
+Proof. exact arch_insert_default_cells. Qed.
+Print Assumptions C02_insert_gives_default_values.
+
+(* ---- scripts ------------------------------------------------------------------------------------------------- *)
+(* the statement of Refine.v for the unlocked alphabet *)
+Theorem C02_unlocked_refines_on : forall typed n cis ops s hs,
+  cis_ok cis -> forallb (alpha_b cis) ops = true ->
+  mrun typed n cis ops = Ok (s, hs) -> x_viol (xrun n cis ops) = 0 -> (N.of_nat (length hs) < 16777000)%N ->
+  refines_on typed n cis ops = true.
+Proof. exact unlocked_refines_on. Qed.
+Print Assumptions C02_unlocked_refines_on.
+
+(* handle by handle: the k-th handle issued is observed (abs_ent: validity, location, archetype mask, cells) exactly
+   when the specification has entity k, with the same component set and matching values *)
+Theorem C02_unlocked_refinement : forall typed n cis ops s hs,
+  cis_ok cis -> forallb (alpha_b cis) ops = true ->
+  mrun typed n cis ops = Ok (s, hs) -> x_viol (xrun n cis ops) = 0 -> (N.of_nat (length hs) < 16777000)%N ->
+  length hs = x_count (xrun n cis ops) /\
+  forall k,
+    match find_ent (xrun n cis ops) k with
+    | Some e => exists e', abs_ent s k (nth k hs null_handle) = Some e' /\ ent_match e e' = true
+    | None => abs_ent s k (nth k hs null_handle) = None
+    end.
+Proof. exact unlocked_refinement. Qed.
+Print Assumptions C02_unlocked_refinement.
+
+(* through the query operations of the model itself: hasComponent and getComponent<const T> on the final state *)
+Theorem C02_unlocked_observations : forall typed n cis ops s hs,
+  cis_ok cis -> forallb (alpha_b cis) ops = true ->
+  mrun typed n cis ops = Ok (s, hs) -> x_viol (xrun n cis ops) = 0 -> (N.of_nat (length hs) < 16777000)%N ->
+  forall k c, c < MASK_BITS ->
+    step s (OHas (nth k hs null_handle) c) = Ok (s, RBool (spec_has (xrun n cis ops) k c)) /\
+    exists v, step s (OGetConst (nth k hs null_handle) c) = Ok (s, RCell (spec_has (xrun n cis ops) k c) v) /\
+              forall e w, find_ent (xrun n cis ops) k = Some e -> In (c, w) (e_comps e) -> cell_le w v = true.
+Proof. exact unlocked_observations. Qed.
+Print Assumptions C02_unlocked_observations.
+
+(* ---- the hypotheses are satisfiable --------------------------------------------------------------------------- *)
+Definition ex_cis : list cinfo := [pal_info 0 0; pal_info 1 0; pal_info 2 0; pal_info 3 0; dyn_info 8 33; pal_info 6 0].
+
+Lemma ex_cis_ok : cis_ok ex_cis.
+Proof. unfold cis_ok, ex_cis. repeat constructor; simpl; intros; congruence. Qed.
+
+(* ids are recycled, entities move between four archetypes, a swap-remove happens on both destroyNow and assign,
+   values are written, defaults (create function / default value) are constructed *)
+Definition ex_script : list xop :=
+  [XoCreate 0 3%N [] false; XoCreate 0 3%N [] true; XoCreate 0 19%N [] false; XoSet 0 1 41%Z; XoSet 1 1 42%Z; XoSet 2 4 43%Z;
+   XoAssign 0 0 2 None; XoAssign 0 2 3 (Some 7%Z); XoDestroyNow 0 0; XoCreate 0 7%N [] false; XoRemove 0 1 0 false;
+   XoAssign 0 1 4 None; XoRemove 0 3 5 true; XoRemove 0 0 1 true; XoDestroyNow 0 9; XoSet 3 2 44%Z; XoAssign 0 3 5 None].
+
+Example C02_nonvacuous :
+  cis_ok ex_cis /\ forallb (alpha_b ex_cis) ex_script = true /\ x_viol (xrun 1 ex_cis ex_script) = 0 /\
+  (forall typed, exists s hs, mrun typed 1 ex_cis ex_script = Ok (s, hs) /\ (N.of_nat (length hs) < 16777000)%N /\
+                              map (is_valid s) hs = [false; true; true; true]) /\
+  map (fun e => (e_k e, e_comps e)) (x_ents (xrun 1 ex_cis ex_script)) =
+    [(2, [(0, None); (1, None); (3, Some 7%Z); (4, Some 43%Z)]);
+     (1, [(1, Some 42%Z); (4, Some 1008%Z)]);
+     (3, [(0, None); (1, None); (2, Some 44%Z); (5, None)])].
+Proof.
+  split; [exact ex_cis_ok|]. split; [vm_compute; reflexivity|]. split; [vm_compute; reflexivity|]. split.
+  - intros typed. destruct typed; eexists; eexists; (split; [vm_compute; reflexivity|]); split; vm_compute; reflexivity.
+  - vm_compute. reflexivity.
+Qed.
+
+(* the function-level hypotheses on a reachable state: entity #0 of archetype {0,1} moves to archetype {0,1,2};
+   another member of {0,1} is swapped into its slot *)
+Definition ex_state : mst :=
+  match mrun false 1 ex_cis [XoCreate 0 3%N [] false; XoCreate 0 7%N [] false; XoCreate 0 3%N [] false; XoSet 0 1 5%Z; XoSet 2 1 6%Z] with
+  | Ok (s, _) => s | Err _ => init 1 ex_cis end.
+
+Definition is_ok {A} (r : res A) : bool := match r with Ok _ => true | Err _ => false end.
+Definition ex_a : archetype := nth 1 (archs ex_state) (new_arch 0%N si_null 0).
+Definition ex_pa : archetype := nth 0 (archs ex_state) (new_arch 0%N si_null 0).
+
+Example C02_moves_nonvacuous :
+  nth_error (archs ex_state) 1 = Some ex_a /\ nth_error (archs ex_state) 0 = Some ex_pa /\
+  length (am_cols ex_a) = length (mitems (am_mask ex_a)) /\ am_size ex_pa = length (am_ents ex_pa) /\
+  length (am_cols ex_pa) = length (mitems (am_mask ex_pa)) /\
+  am_ents ex_pa = [(0%N, 0%N); (2%N, 0%N)] /\ cinfos ex_state = ex_cis /\
+  is_ok (external_move ex_state 1 (0%N, 0%N) 0 0 0%N) = true /\
+  is_ok (arch_remove ex_state 0 0 (0%N, 0%N) 0%N) = true /\
+  is_ok (arch_insert ex_state 1 (0%N, 0%N) 0%N) = true.
+Proof. vm_compute. repeat split. Qed.
+
+(* ---- why cis_ok is needed ------------------------------------------------------------------------------------- *)
+(* a component type with after_assign and a default value but no create function: creation leaves the cell
+   unwritten, the specification (and assign) give it the default value *)
+Definition odd_info : cinfo :=
+  {| ci_pal := 0; ci_ev := true; ci_hasval := true; ci_create := None; ci_move := true; ci_mctor := true; ci_destroy := true;
+     ci_default := Some 9%Z; ci_aa := true; ci_br := false; ci_clone := true; ci_copy := true |}.
+
+Example C02_insert_skips_default_of_after_assign_types :
+  refines_on false 1 [odd_info] [XoCreate 0 1%N [] false] = false /\
+  refines_on false 1 [odd_info] [XoCreate 0 0%N [] false; XoAssign 0 0 0 None] = true /\
+  x_viol (xrun 1 [odd_info] [XoCreate 0 1%N [] false]) = 0.
+Proof. vm_compute. repeat split. Qed.
